@@ -15,10 +15,12 @@ def stripAnnot : M → M
   | .annotate m => stripAnnot m
   | m => m
 
-/-- a `MatchesPredicate` with a well-formed message (one conversion) whose predicate is false of `v` -/
+/-- a `MatchesPredicate` with a well-formed message (one conversion) whose predicate is false of `v`
+(and `str(v)`, which `'%s' % (v,)` calls, works: it does for every value but the instances of the harness's
+`StrRaisesError`) -/
 def predicateSaysNo (m : M) (v : V) : Bool :=
   match stripAnnot m with
-  | .leaf (.predicate _ .one dom res) => lookupTbl v dom res == .mismatch
+  | .leaf (.predicate _ .one dom res) => lookupTbl v dom res == .mismatch && !strRaises v
   | _ => false
 
 /-! clauses for `describe` inputs -/
